@@ -213,12 +213,13 @@ def history_directed(pid, tier, mc):
 
 
 def design_conformance(pid, expect, backends=("x86", "a64", "rv64")):
-    """post hook: the concrete heap at the last statement marker of a replayed history must be the heap the design model
-    (spec/AxCutHeap.tla) predicts: same head blocks of both free lists, same list lengths, same reachable count, same frontier"""
+    """post hook: compares the concrete heap at the last statement marker of a replayed history with the heap the design model
+    (spec/AxCutHeap.tla) predicts: head blocks of both free lists, list lengths, reachable count, frontier.  A deviation is
+    *reported, not a violation*: C09/C10 do not prescribe which free block is reused first, so an allocator that deviates from
+    the design model can still satisfy them; the invariants and the fresh-memory rule of spec/Refine.tla decide."""
     def post(art, index, args, work, stats):
-        viols = []
         for be in backends:
-            n = 0
+            n, dev = 0, []
             p = os.path.join(work, "results-%s.json" % be)
             if not os.path.exists(p):
                 continue
@@ -227,12 +228,12 @@ def design_conformance(pid, expect, backends=("x86", "a64", "rv64")):
                 if name in expect and x["status"] == "done":
                     n += 1
                     if x["fin"] != expect[name]:
-                        rp = save_replay(pid, "design-conformance-%s-%s" % (be, name), {"backend": be, "program": name, "predicted": expect[name], "observed": x["fin"]})
-                        viols.append({"signature": "%s:%s:design-conformance" % (pid, be), "replay": rp,
-                                      "what": "%s on %s: heap after the history differs from the design model's prediction (predicted %s, observed %s)"
-                                              % (name, be, expect[name], x["fin"])})
-            stats.setdefault(be, {})["design_conformance_cases"] = n
-        return viols
+                        dev.append({"program": name, "predicted": expect[name], "observed": x["fin"]})
+            stats.setdefault(be, {})["design_conformance"] = {"histories_compared": n, "deviations": len(dev), "first_deviations": dev[:3]}
+            if dev:
+                log("NOTE property=%s design-deviation backend=%s: %d of %d replayed histories end in a heap that differs from the prediction "
+                    "of spec/AxCutHeap.tla (not a violation by itself), e.g. %s" % (pid, be, len(dev), n, dev[0]))
+        return []
     return post
 
 
@@ -618,13 +619,20 @@ def check_C17(tier):
     if not hists:
         raise ToolError("no histories enumerated")
     srcs = {"p1": os.path.join(VERIF, "corpus", "det", "poly.sc"), "p2": os.path.join(VERIF, "corpus", "det", "small.sc")}
+    # the same two texts as two files with the *same file name* in different directories (what a Driver compiled before must
+    # not leak into a later request, whatever the files are called): used by every even-numbered process
+    same = {}
+    for k, d in (("p1", "a"), ("p2", "b")):
+        os.makedirs(os.path.join(work, "src", d), exist_ok=True)
+        same[k] = os.path.join(work, "src", d, "prog.sc")
+        shutil.copy(srcs[k], same[k])
     # 2. replay: process A all histories, further processes a sample (other hash seeds), one with the sources swapped
     rng = rng_for("C17")
     nproc = T(tier, 4, 8)
     logs = []
     for pi in range(nproc):
         hs = hists if pi == 0 else rng.sample(hists, min(len(hists), T(tier, 300, 3000)))
-        spec = {"sources": srcs, "histories": [[list(q) for q in h] for h in hs]}
+        spec = {"sources": same if pi % 2 == 0 else srcs, "histories": [[list(q) for q in h] for h in hs]}
         sp = os.path.join(work, "spec%d.json" % pi)
         json.dump(spec, open(sp, "w"))
         lp = os.path.join(work, "log%d.ndjson" % pi)
@@ -877,7 +885,8 @@ def check_C14(tier):
 def size_families(k):
     """scalable families of depth k: every kind of branch point x every kind of position the rest of the program can be in"""
     decl = ("data T { A, B(v: i64), C(l: T, r: T) }\ncodata F { ap(x: i64): i64 }\n"
-            "def f(x: i64, y: i64): i64 { x + y }\ndef mk(): F { new { ap(x) => x } }\n")
+            "def f(x: i64, y: i64): i64 { x + y }\ndef mk(): F { new { ap(x) => x } }\n"
+            "def h(x: i64): T { if x == 0 { A } else { B(x) } }\ndef hk(x: i64, k :cns T): T { if x == 0 { goto k (A) } else { B(x) } }\n")
 
     def branch(kind, i, var):
         # a branch point of type i64 depending on variable `var`
@@ -891,14 +900,38 @@ def size_families(k):
             return "(if %s == %d { A } else { B(%d) }).case { A => %s, B(v) => v, C(l, r) => 0 }" % (var, i, i, var)
         if kind == "label":
             return "label a%d { if %s == %d { goto a%d (%s + 1) } else { %s } }" % (i, var, i, i, var, var)
+        if kind == "letcall":   # a data value bound by a let to a call (mu / mu~ critical pair over a multi-constructor type), then matched
+            return "(let d%d: T = h(%s); d%d.case { A => %s, B(v) => v, C(l, r) => 0 })" % (i, var, i, var)
+        if kind == "letlabel":
+            return "(let d%d: T = label b%d { hk(%s, b%d) }; d%d.case { A => %s, B(v) => v, C(l, r) => 0 })" % (i, i, var, i, i, var)
+        raise ValueError(kind)
+
+    def nested(kind, i, var, rest):
+        # the same branch points with the rest of the program *inside* one of the branches
+        if kind == "if":
+            return "if %s == %d { %s } else { %s * 2 }" % (var, i, rest, var)
+        if kind == "ifz":
+            return "if %s <= 0 { 1 } else { %s }" % (var, rest)
+        if kind == "case":
+            return "t.case { A => %s, B(v) => v + %s, C(l, r) => %s }" % (var, var, rest)
+        if kind == "pair":
+            return "(if %s == %d { A } else { B(%d) }).case { A => %s, B(v) => %s, C(l, r) => 0 }" % (var, i, i, var, rest)
+        if kind == "label":
+            return "label a%d { if %s == %d { goto a%d (%s + 1) } else { %s } }" % (i, var, i, i, var, rest)
+        if kind == "letcall":
+            return "let d%d: T = h(%s); d%d.case { A => %s, B(v) => %s, C(l, r) => 0 }" % (i, var, i, var, rest)
+        if kind == "letlabel":
+            return "let d%d: T = label b%d { hk(%s, b%d) }; d%d.case { A => %s, B(v) => %s, C(l, r) => 0 }" % (i, i, var, i, i, var, rest)
         raise ValueError(kind)
 
     def nest(kind, pos, i):
         # the program of depth k-i: branch point i, then the rest in position `pos`
         if i == k:
             return "x%d" % k if pos == "let" else "x0"
-        br = branch(kind, i, "x%d" % i if pos == "let" else "x0")
         rest = nest(kind, pos, i + 1)
+        if pos == "nested":
+            return nested(kind, i, "x0", rest)
+        br = branch(kind, i, "x%d" % i if pos == "let" else "x0")
         if pos == "let":
             return "let x%d: i64 = %s; %s" % (i + 1, br, rest)
         if pos == "call":
@@ -917,8 +950,8 @@ def size_families(k):
             return "(if (%s) == 0 { A } else { B(%s) }).case { A => 0, B(v) => v, C(l, r) => 1 }" % (br, "(" + rest + ")")
         raise ValueError(pos)
     fams = {}
-    for kind in ("if", "ifz", "case", "pair", "label"):
-        for pos in ("let", "call", "callarg", "operand", "ctor", "dtor", "print", "scrut"):
+    for kind in ("if", "ifz", "case", "pair", "label", "letcall", "letlabel"):
+        for pos in ("let", "call", "callarg", "operand", "ctor", "dtor", "print", "scrut", "nested"):
             body = nest(kind, pos, 0)
             fams["%s_%s" % (kind, pos)] = decl + "def g(t: T, x0: i64): i64 { %s }\ndef main(x0: i64): i64 { g(C(A, B(x0)), x0) }\n" % body
     return fams
@@ -946,15 +979,16 @@ def check_C19(tier):
         lst += part
         # a family that already grew by more than the allowed factor is not compiled at greater depth
         for nm in size_families(4):
-            def sz(k_):
-                p_ = os.path.join(art, "%s_%d.core.json" % (nm, k_))
+            def sz(k_, st_):
+                p_ = os.path.join(art, "%s_%d.%s.json" % (nm, k_, st_))
                 return len(json.load(open(p_))["nodes"]) if os.path.exists(p_) else None
-            if nm not in {e[0] for e in early}:
-                s4, s8, s12 = sz(4), sz(8), sz(12)
-                if s4 and s8 and s8 > 12 * s4:
-                    early.append((nm, "Core size grows from %d (depth 4) to %d (depth 8)" % (s4, s8)))
-                elif s4 and s12 and s12 > 40 * s4:
-                    early.append((nm, "Core size grows from %d (depth 4) to %d (depth 12)" % (s4, s12)))
+            for st_, label in (("core", "Core"), ("axcut", "AxCut")):
+                if nm not in {e[0] for e in early}:
+                    s4, s8, s12 = sz(4, st_), sz(8, st_), sz(12, st_)
+                    if s4 and s8 and s8 > 12 * s4:
+                        early.append((nm, "%s size grows from %d (depth 4) to %d (depth 8)" % (label, s4, s8)))
+                    elif s4 and s12 and s12 > 40 * s4:
+                        early.append((nm, "%s size grows from %d (depth 4) to %d (depth 12)" % (label, s4, s12)))
     lp = os.path.join(work, "list.json")
     json.dump([c for c in lst if c["name"].rsplit("_", 1)[0] not in {e[0] for e in early}], open(lp, "w"))
     sccv("pipeline", lp, art, "fun,core,corefs,axcut,axcutlin,x86,a64,rv64", timeout=1200)
@@ -990,7 +1024,7 @@ def check_C19(tier):
     viols = []
     for nm, why in early:
         rp = save_replay("C19", nm + "-early", {"family": nm, "why": why, "source_depth4": size_families(4)[nm]})
-        viols.append({"signature": "C19:%s:core" % nm, "what": "%s: %s (exponential: deeper members not compiled)" % (nm, why), "replay": rp})
+        viols.append({"signature": "C19:%s:early" % nm, "what": "%s: %s (exponential: deeper members not compiled)" % (nm, why), "replay": rp})
     for x in r["results"]:
         if x["status"] == "fail":
             rp = save_replay("C19", x["case"], x)
@@ -999,9 +1033,10 @@ def check_C19(tier):
     new = triage("C19", viols)
     write_evidence("C19", tier, "exploration",
                    {"evaluations": len(fams) * len(ks), "distinct_nontrivial": len(fams),
-                    "rule": "40 scalable families (5 kinds of branch point: if, zero-test, 3-way match, critical pair, label; x 8 positions of "
-                            "the rest of the program: let body, after a call, call argument, operand, constructor argument, destructor "
-                            "argument, after a print, scrutinee) at depth 4, 8, 12, 16 "
+                    "rule": "63 scalable families (7 kinds of branch point: if, zero-test, 3-way match, critical pair, label, match on a "
+                            "let-bound call, match on a let-bound label block; x 9 positions of the rest of the program: let body, after a "
+                            "call, call argument, operand, constructor argument, destructor argument, after a print, scrutinee, and "
+                            "nested inside one branch) at depth 4, 8, 12, 16 "
                             "through the real pipeline; size = node count of each dumped stage / instruction count of each backend's text; "
                             "spec/Sizes.tla evaluates Growth and Quadratic; a family/stage pair is non-trivial when its four sizes differ",
                     "samples": [{"family": f["name"], "stage": f["stage"], "source_tokens": f["src"], "sizes": f["size"]} for f in fams[:6]],
@@ -1087,6 +1122,15 @@ def check_C18(tier):
     }
     for n, s in extreme.items():
         lst.append({"name": "x_" + n, "kind": "fun", "src": s, "only_valid_main": True})
+    # ---- structure-aware mutants: single ill-typed edits of generated well-typed programs (the edit classes of C15: wrong
+    # arities, binder counts, clauses, type arguments, chirality, shadowing, duplicates) - inputs on which the checker must
+    # produce a diagnostic, not a crash
+    import gen_fun
+    nsem = 0
+    for name, clean, muts in gen_fun.generate_marked(seed() * 1000 + 18, T(tier, 60, 1200), mode="any", budget=(6, 18)):
+        for k, (cls, src) in enumerate(muts):
+            lst.append({"name": "sem_%s_m%d" % (name, k), "kind": "fun", "src": src, "only_valid_main": True})
+            nsem += 1
     lp = os.path.join(work, "list.json")
     json.dump(lst, open(lp, "w"))
     art = os.path.join(work, "art")
@@ -1128,12 +1172,13 @@ def check_C18(tier):
             rp = save_replay("C18", x["case"], {"input": srcof.get(x["case"]), "why": x["why"]})
             viols.append({"signature": "C18:%s:%s" % (stage.group(1) if stage else "order", msg), "replay": rp, "what": "%s: %s" % (x["case"], x["why"][:200])})
     accepted = sum(1 for e in index.values() if any(s["stage"] == "check" and s["outcome"] == "ok" for s in e["stages"]))
-    log("[C18] %d token mutants, %d byte mutants, %d extreme, %d files; %d accepted by the checker; %s" % (len(mutants), nb, len(extreme), len(blobs), accepted, dict(stats)))
+    log("[C18] %d token mutants, %d byte mutants, %d structure-aware ill-typed edits, %d extreme, %d files; %d accepted by the checker; %s" % (len(mutants), nb, nsem, len(extreme), len(blobs), accepted, dict(stats)))
     new = triage("C18", viols)
     write_evidence("C18", tier, "exploration",
                    {"evaluations": len(traces), "distinct_nontrivial": len(set(srcof.values())),
                     "rule": "all single (thorough: windowed double) token mutations of 3 base programs enumerated by TLC from spec/Mutate.tla; "
-                            "random byte-level edits of valid programs; extreme shapes; files with invalid UTF-8 through Driver::checked; "
+                            "random byte-level edits of valid programs; single ill-typed edits of generated well-typed programs (the edit classes of C15); "
+                            "extreme shapes; files with invalid UTF-8 through Driver::checked; "
                             "every replay's stage-event trace validated by spec/TracePipeline.tla (a panic is in no alphabet); accepted "
                             "programs with a valid main continue through all three backends; distinct = distinct input texts",
                     "samples": [srcof["tok5"], srcof["byte3"], "x_deep_paren (300 levels)"], "accepted_by_checker": accepted,
